@@ -91,6 +91,17 @@ CHECKS = {
         note="Two BBC cases are protocol-inherent known findings (lost last fragment, duplicated single-fragment transmission). MTCP client failure via in-memory connection.",
         technique="TLA+ specs + TLC enumeration replayed on real MTCP server / BBC receiver; TLC-judged records of real trains under single faults",
     ),
+    "C08": dict(
+        category="model_checking",
+        text="Store.tla is the reference durable map (push whole/fragment, concurrent fragment pushes, update, delete, expiry sweep, reopen, and "
+             "kills at the instrumented points of Push and Delete with 'took effect or not' semantics); TLC checks locality of crashes and "
+             "reopen identity and emits one behaviour per edge of the reduced graph plus random deep ones; each is replayed on a real "
+             "storage.Store (crash steps in a child process killed at the hook, then reopened), comparing lookups, pending query, fragment "
+             "sets, completeness, byte-identical part files and reassembled loads after every operation.",
+        design_ref="DESIGN.md section 6 C08",
+        note="Trusted: TLC, harness. Kill = process exit, not power loss. Concurrent pushes forced through the verif yield point (gate times out when the store serialises pushes).",
+        technique="TLA+ spec + TLC exhaustive check + replay of TLC behaviours (incl. crash points and forced interleaving) on the real store",
+    ),
 }
 
 NOT_YET = "machinery for this property is not built yet in this revision (planned in DESIGN.md section 6)"
@@ -143,7 +154,7 @@ def main():
 
 
 NA = {}
-HOOK_COMMITS = ["ba2cc1f"]
+HOOK_COMMITS = ["ba2cc1f", "672bb94", "8f9e00d"]
 
 if __name__ == "__main__":
     main()
